@@ -490,3 +490,16 @@ Theorem recreate_in_window_tombstone_wins :
   forallb (fun t => match batch (pcs s t) with [] => true | _ => false end) [0;1;2;3;4] = true /\
   no_recreate (init (progs_of w_stale_tomb_progs)) [0;1;2;3;4] w_stale_tomb = false.
 Proof. vm_compute. auto. Qed.
+
+(* the close-write is needed even while another flush is running: that flush only writes what it
+   collected. 0 saves k0=1; 1 = write tick, parked after its dequeue; 2 saves k1=2; if Close()
+   skips its own flush (because "a writer is active") and the tick then finishes, k1 is still
+   queued in an instance that is gone; with the close-write (thread 3) it is durable *)
+Example close_write_skipped_loses_queued_save :
+  let progs := progs_of [PSave 0 1 false; PFlush; PSave 1 2 false; PFlush] in
+  let skipped := run false (init progs) [0; 1;1; 2; 1;1;1] in
+  let closed := run false (init progs) [0; 1;1; 2; 3;3;3;3; 1;1;1] in
+  memval skipped 1 = Some 2 /\ disk skipped 1 = None /\ length (queue skipped) = 1 /\
+  memval closed 1 = Some 2 /\ disk closed 1 = Some 2 /\ disk closed 0 = Some 1 /\ queue closed = [] /\
+  no_recreate (init progs) [0;1;2;3] [0; 1;1; 2; 3;3;3;3; 1;1;1] = true.
+Proof. vm_compute. repeat split; reflexivity. Qed.
